@@ -18,7 +18,7 @@ def ChC (t : Tabs) (st st' : SM.St) (c : CellId) : Prop :=
 
 /-- the references whose value can differ -/
 def ChR (t : Tabs) (st st' : SM.St) (r : RefId) : Prop :=
-  ∃ q x, t.refOf r = some (q, x) ∧ t.rid q x = r ∧ st'.mem .refs q x ≠ st.mem .refs q x
+  ∃ q x, t.refOf r = some (q, x) ∧ t.rid q x = r ∧ refPay t st' q x ≠ refPay t st q x
 
 theorem cellInfo_of_cellOf (t : Tabs) (st : SM.St) (c : CellId) (q : Path) (x : String)
     (h : t.cellOf c = some (q, x)) :
@@ -78,7 +78,7 @@ theorem redef_envOf (P : Params) (t : Tabs) (st st' : SM.St) :
       obtain ⟨q, x⟩ := e
       simp only
       by_cases hrid : t.rid q x = r
-      · have hm : st'.mem .refs q x = st.mem .refs q x := by
+      · have hm : refPay t st' q x = refPay t st q x := by
           apply Classical.byContradiction
           intro hne
           exact hr ⟨q, x, hd, hrid, hne⟩
@@ -130,11 +130,11 @@ theorem mem_cellsOf (t : Tabs) (st : SM.St) (q : Path) (x : String) (h : (st.mem
 
 /-! ### the check -/
 
-theorem nsAt_none_of_not_mem (t : Tabs) (st : SM.St) (q : Path) (x : String) (h : x ∉ nsNames st q) :
-    nsAt t st q x = none := by
+theorem nsPlain_none_of_not_mem (t : Tabs) (st : SM.St) (q : Path) (x : String) (h : x ∉ nsNames st q)
+    (hg : x ∉ st.globals) : nsPlain t st q x = none := by
   simp only [nsNames, List.mem_append, not_or] at h
   obtain ⟨⟨h1, h2⟩, h3⟩ := h
-  unfold nsAt
+  unfold nsPlain
   have c1 : (st.mem .cells q x).isSome = false := by
     cases hh : (st.mem .cells q x).isSome with
     | false => rfl
@@ -147,17 +147,30 @@ theorem nsAt_none_of_not_mem (t : Tabs) (st : SM.St) (q : Path) (x : String) (h 
     cases hh : (st.childNames q).contains x with
     | false => rfl
     | true => exact absurd (by simpa using hh) h3
-  simp [c1, c2]
+  have c4 : st.globals.contains x = false := by
+    cases hh : st.globals.contains x with
+    | false => rfl
+    | true => exact absurd (by simpa using hh) hg
+  simp [c1, c2, c4, hg]
 
 theorem sameNs_sound (t : Tabs) (st st' : SM.St) (q : Path) (h : sameNs t st st' q = true) :
     nsAt t st' q = nsAt t st q := by
   funext x
-  by_cases hx : x ∈ nsNames st q ++ nsNames st' q
-  · unfold sameNs at h
-    rw [List.all_eq_true] at h
-    exact (beq_iff_eq.mp (h x hx)).symm
-  · simp only [List.mem_append, not_or] at hx
-    rw [nsAt_none_of_not_mem t st q x hx.1, nsAt_none_of_not_mem t st' q x hx.2]
+  cases hq : qualOf t q x with
+  | some e => unfold nsAt; rw [hq]
+  | none =>
+    by_cases hx : x ∈ nsNames st q ++ nsNames st' q ++ st.globals ++ st'.globals
+    · unfold sameNs at h
+      rw [List.all_eq_true] at h
+      have := h x hx
+      rw [hq] at this
+      simp only [Option.isSome_none, Bool.false_or, beq_iff_eq] at this
+      exact this.symm
+    · simp only [List.mem_append, not_or] at hx
+      unfold nsAt
+      rw [hq]
+      simp only
+      rw [nsPlain_none_of_not_mem t st q x hx.1.1.1 hx.1.2, nsPlain_none_of_not_mem t st' q x hx.1.1.2 hx.2]
 
 /-- what the check says, as propositions -/
 structure Covers (t : Tabs) (st st' : SM.St) (cl : List Clear) : Prop where
@@ -166,6 +179,16 @@ structure Covers (t : Tabs) (st st' : SM.St) (cl : List Clear) : Prop where
     clearedBy cl (t.cid q x) = true
   refsNs : ∀ q x, st'.mem .refs q x ≠ st.mem .refs q x → ∀ c ∈ cellsOf t st q, touchedBy cl c = true
   refsAttr : ∀ q x, st'.mem .refs q x ≠ st.mem .refs q x → (st.mem .refs q x).isSome = true →
+    Clear.attr (t.rid q x) ∈ cl
+
+/-- the clauses `struct_ci` needs: namespaces, entries of cells, and the SLOTS (what `(space, name)`
+denotes as a reference: the member, or the model-level reference behind it) -/
+structure CoversG (t : Tabs) (st st' : SM.St) (cl : List Clear) : Prop where
+  ns : ∀ q x, (st.mem .cells q x).isSome = true → nsAt t st' q ≠ nsAt t st q → touchedBy cl (t.cid q x) = true
+  cells : ∀ q x, (st.mem .cells q x).isSome = true → st'.mem .cells q x ≠ st.mem .cells q x →
+    clearedBy cl (t.cid q x) = true
+  slotNs : ∀ q x, refPay t st' q x ≠ refPay t st q x → ∀ c ∈ cellsOf t st q, touchedBy cl c = true
+  slotAttr : ∀ q x, refPay t st' q x ≠ refPay t st q x → (refPay t st q x).isSome = true →
     Clear.attr (t.rid q x) ∈ cl
 
 theorem covered_sound (t : Tabs) (st st' : SM.St) (cl : List Clear) (h : covered t st st' cl = true) :
@@ -177,7 +200,7 @@ theorem covered_sound (t : Tabs) (st st' : SM.St) (cl : List Clear) (h : covered
     have hq : q ∈ st.ids ++ st'.ids := List.mem_append_left _ (mem_ids_of_isSome st .cells q x hm)
     have := h q hq
     simp only [Bool.and_eq_true, Bool.or_eq_true] at this
-    rcases this.1.1 with h1 | h1
+    rcases this.1.1.1 with h1 | h1
     · exact absurd (sameNs_sound t st st' q h1) hne
     · rw [List.all_eq_true] at h1
       exact h1 _ (mem_cellsOf t st q x hm)
@@ -185,7 +208,7 @@ theorem covered_sound (t : Tabs) (st st' : SM.St) (cl : List Clear) (h : covered
     have hq : q ∈ st.ids ++ st'.ids := List.mem_append_left _ (mem_ids_of_isSome st .cells q x hm)
     have := h q hq
     simp only [Bool.and_eq_true, Bool.or_eq_true] at this
-    have h2 := this.1.2
+    have h2 := this.1.1.2
     rw [List.all_eq_true] at h2
     have hk := mem_keys_of_isSome st .cells q x hm
     simp only [List.mem_map] at hk
@@ -210,7 +233,7 @@ theorem covered_sound (t : Tabs) (st st' : SM.St) (cl : List Clear) (h : covered
       · exact List.mem_append_right _ (mem_ids_of_isSome st' .refs q x h1)
     have := h q hq
     simp only [Bool.and_eq_true] at this
-    have h3 := this.2
+    have h3 := this.1.2
     rw [List.all_eq_true] at h3
     have hx : x ∈ (conts st .refs q).map (·.1) ++ (conts st' .refs q).map (·.1) := by
       rcases hsome with h1 | h1
@@ -227,7 +250,7 @@ theorem covered_sound (t : Tabs) (st st' : SM.St) (cl : List Clear) (h : covered
     have hq : q ∈ st.ids ++ st'.ids := List.mem_append_left _ (mem_ids_of_isSome st .refs q x hs)
     have := h q hq
     simp only [Bool.and_eq_true] at this
-    have h3 := this.2
+    have h3 := this.1.2
     rw [List.all_eq_true] at h3
     have hx : x ∈ (conts st .refs q).map (·.1) ++ (conts st' .refs q).map (·.1) :=
       List.mem_append_left _ (mem_keys_of_isSome st .refs q x hs)
@@ -245,7 +268,7 @@ variable {lt : Node → Node → Prop}
 /-- **a structural edit whose clearing covers what changed keeps the certificate invariant**: the
 clearing is performed under the old definitions, then the definitions are those of `st'` -/
 theorem struct_ci (P : Params) {t : Tabs} {st st' : SM.St} {s : Exec.St} {cl : List Clear}
-    (hw : WF (envOf P t st) lt) (hci : CI (envOf P t st) lt s) (hcov : Covers t st st' cl) :
+    (hw : WF (envOf P t st) lt) (hci : CI (envOf P t st) lt s) (hcov : CoversG t st st' cl) :
     CI (envOf P t st') lt (doClears (envOf P t st) s cl) := by
   obtain ⟨h1, _, _, _, hT, hCl, hA, _⟩ := doClears_facts hw.scoping hw.noCatch cl s hci
   refine redefine_ci h1 hw.scoping hw.noCatch (redef_envOf P t st st') ?_ ?_ ?_ ?_
@@ -289,14 +312,14 @@ theorem struct_ci (P : Params) {t : Tabs} {st st' : SM.St} {s : Exec.St} {cl : L
     intro r hr c hc
     obtain ⟨q, x, hd, _, hne⟩ := hr
     simp only [envOf, hd] at hc
-    exact hT c (hcov.refsNs q x hne c hc)
+    exact hT c (hcov.slotNs q x hne c hc)
   · -- a changed reference that existed has no recorded reader left
     intro r hr hs
     obtain ⟨q, x, hd, hrid, hne⟩ := hr
-    have hs' : (st.mem .refs q x).isSome = true := by
+    have hs' : (refPay t st q x).isSome = true := by
       simp only [envOf, hd, hrid, beq_self_eq_true, if_true, Option.isSome_map] at hs
       exact hs
-    have := hA _ (hcov.refsAttr q x hne hs')
+    have := hA _ (hcov.slotAttr q x hne hs')
     rw [hrid] at this
     exact this
 
